@@ -69,6 +69,15 @@ def main():
             entry['wall_s'] = round(time.time() - t0, 1)
             lines = [l for l in c.stdout.splitlines() if l.startswith(('VIOLATION', 'KNOWN-FINDING'))]
             entry['lines'] = lines[:5]
+            keys = []
+            for l in lines:
+                if l.startswith('VIOLATION') and 'replay=' in l:
+                    rp = os.path.join(VERIF, l.split('replay=')[1].split()[0])
+                    try:
+                        keys.append(json.load(open(rp)).get('key'))
+                    except Exception:  # noqa: BLE001
+                        pass
+            entry['keys'] = keys
             entry['caught'] = c.returncode == 1 and any(l.startswith('VIOLATION') for l in lines)
             entry['with_failing_input'] = any(
                 l.startswith('VIOLATION') and not l.rstrip().endswith('no-failing-input-found') for l in lines
